@@ -10,7 +10,7 @@
    The code before the fixes is refuted by [turn_structure_refuted_unfixed], [game_hangs_refuted_unfixed] and
    [first_player_refuted_unfixed]. *)
 From Common Require Import Prelude.
-From C06 Require Import Model Lemmas Turns.
+From C06 Require Import Model Lemmas Turns Ends Restart.
 Open Scope Z_scope.
 
 (* every trace is accepted by the recogniser of prefixes of the lifecycle grammar (Lemmas.v, [gstep]):
@@ -24,12 +24,12 @@ Proof. exact lifecycle_trace_in_grammar_l. Qed.
 Print Assumptions lifecycle_trace_in_grammar.
 
 Example lifecycle_example :
-  (* a complete 2-player 1-ball game with an extra ball for player 1: 36 lifecycle events, one Award marker, ends with Fin *)
+  (* a complete 2-player 1-ball game with an extra ball for player 1: 36 lifecycle events, one Award marker, five operation observations, ends with Fin *)
   let tr := trace (mkcfg 1 2 3 true false)
                   ([mkin [] [] []; mkin [] [] []; mkin [] [] []; mkin [AddPlayerReq true] [] []] ++
                    repeat (mkin [] [] [Drain 1]) 4 ++ [mkin [AwardExtra] [] [Drain 1]] ++
                    repeat (mkin [] [] [Drain 1]) 40) in
-  length tr = 38%nat /\ last tr Fin = Fin /\ mrun gstep G0 tr = Some EF.
+  length tr = 43%nat /\ last tr Fin = Fin /\ mrun gstep G0 tr = Some EF.
 Proof. vm_compute. repeat split; reflexivity. Qed.
 Print Assumptions lifecycle_example.
 
@@ -115,3 +115,101 @@ Example witnesses_fixed :
   pc (final hang_cfg (hang_ins ++ repeat calm 4)) = Done.
 Proof. split; [exact late_add_fixed_ok | exact (proj2 hang_fixed_ends)]. Qed.
 Print Assumptions witnesses_fixed.
+
+(* ------------------------------------------------------------------------------------------------------------- *)
+(* a complete 2-player 1-ball game with an extra ball for player 1 (the game of lifecycle_example) *)
+Definition ex_cfg : cfg := mkcfg 1 2 3 true false.
+Definition ex_ins : list input :=
+  [mkin [] [] []; mkin [] [] []; mkin [] [] []; mkin [AddPlayerReq true] [] []] ++
+  repeat (mkin [] [] [Drain 1]) 4 ++ [mkin [AwardExtra] [] [Drain 1]] ++ repeat (mkin [] [] [Drain 1]) 40.
+
+(* "A ball ends exactly when balls in play reaches zero or an end is requested."  The monitor [cstep] (Ends.v) reads
+   the trace: every environment operation is followed by an observation OpObs code bip (code 1/2/3 = end_ball /
+   end_game / slam-tilt request); a cause is a request or balls_in_play going from > 0 to 0 at an operation; the
+   window of a ball opens at ball_will_start.  It rejects a ball_will_end without a cause since ball_will_start, and
+   an idle observation in the live phase (after ball_started) once a cause has occurred.  Hence: ball_will_end only
+   after a cause, and after a cause the live ball does not go on.  (In the model a drain can only change
+   balls_in_play while the ball is live: the ball_drain handler is registered between ball_starting and
+   ball_started and removed in _end_ball.) *)
+Theorem ball_ends_iff : forall c ins, 0 <= nbk c -> ball_ends_ok (trace c ins).
+Proof. exact ball_ends_iff_l. Qed.
+Print Assumptions ball_ends_iff.
+
+Example ball_ends_example :
+  (* the real game is accepted and ends outside a ball window; a ball that ends after an irrelevant operation is
+     rejected; with the drain taking balls_in_play from 1 to 0 it is accepted *)
+  mrun cstep cm0 (trace ex_cfg ex_ins) = Some (mkcm false false false 0) /\
+  mrun cstep cm0 [Ev BWS 1 1 false 0 1; Ev BSg 1 1 false 0 1; Ev BSd 1 1 false 1 1; OpObs 0 1; Ev BWE 1 1 false 0 1] = None /\
+  mrun cstep cm0 [Ev BWS 1 1 false 0 1; Ev BSg 1 1 false 0 1; Ev BSd 1 1 false 1 1; OpObs 0 0; Idle 0 1 0] = None /\
+  mrun cstep cm0 [Ev BWS 1 1 false 0 1; Ev BSg 1 1 false 0 1; Ev BSd 1 1 false 1 1; OpObs 0 0; Ev BWE 1 1 false 0 1]
+    = Some (mkcm false false false 0).
+Proof. vm_compute. repeat split; reflexivity. Qed.
+Print Assumptions ball_ends_example.
+
+(* "... for each ball number up to balls_per_game each player in order gets exactly one turn ..., then end."
+   The monitor [estep] (Ends.v): game_will_end (with n players) is accepted only after an end_game request, after a
+   slam tilt, or directly after the turn (player_turn_ended p b) with p = n and b >= balls_per_game; a new turn
+   (player_turn_will_start, with n players) is rejected after an end_game request and after a turn with a slam tilt
+   or with p = n and b >= balls_per_game.  Together with turn_structure: without a request the game ends exactly
+   after turn (n, balls_per_game).  n is the number of players when the decision is taken, i.e. after the handlers of
+   player_turn_ended: a player who joined inside the last player's turn-ending events of ball 1 still gets a turn. *)
+Theorem game_ends_after_last_turn : forall c ins, game_end_ok c (trace c ins).
+Proof. exact game_end_iff_l. Qed.
+Print Assumptions game_ends_after_last_turn.
+
+Example game_ends_example :
+  mrun (estep ex_cfg) em0 (trace ex_cfg ex_ins) = Some (mkem false false (Some (2, 1)%nat)) /\
+  (* 2-ball game, one player: game_will_end after the first turn without a request is rejected, after the second accepted *)
+  mrun (estep (mkcfg 2 1 1 true false)) em0 [Ev PTEd 1 1 false 0 1; Ev GWE 0 0 false 0 1] = None /\
+  mrun (estep (mkcfg 2 1 1 true false)) em0 [Ev PTEd 1 2 false 0 1; Ev GWE 0 0 false 0 1] <> None /\
+  mrun (estep (mkcfg 2 1 1 true false)) em0 [Ev PTEd 1 2 false 0 1; Ev PTWS 1 2 false 0 1] = None /\
+  (* one-ball game: player 2 joined while player 1's turn was ending: the game must go on *)
+  mrun (estep (mkcfg 1 2 1 true false)) em0 [Ev PTEd 1 1 false 0 1; Ev GWE 0 0 false 0 2] = None.
+Proof. vm_compute. repeat split; try reflexivity; discriminate. Qed.
+Print Assumptions game_ends_example.
+
+(* "... one ball plus one more per extra ball awarded".  The monitor [xstep] (Ends.v) keeps per player the number of
+   extra balls awarded (Award markers: player.extra_balls += 1) and not yet played; it rejects an extra ball
+   (ball_will_start with is_extra_ball) for a player with balance 0, and a player_turn_will_end with a positive
+   balance unless the machine was slam-tilted.  The cap max_extra_balls_per_game belongs to the ExtraBall /
+   ExtraBallGroup devices, which decide whether player.extra_balls is incremented; it is not part of the game loop. *)
+Theorem extra_balls_played_eq_awarded : forall c ins, extra_balls_ok (trace c ins).
+Proof. exact extra_balls_l. Qed.
+Print Assumptions extra_balls_played_eq_awarded.
+
+Example extra_balls_example :
+  (exists m, mrun xstep xm0 (trace ex_cfg ex_ins) = Some m /\ xbal m 1%nat = 0%nat /\ xsl m = false) /\
+  existsb (fun o => match o with Ev BWS 1 _ true _ _ => true | _ => false end) (trace ex_cfg ex_ins) = true /\
+  mrun xstep xm0 [Ev BWS 1 1 true 0 1] = None /\
+  mrun xstep xm0 [Award 1; Ev PTWE 1 1 false 0 1] = None.
+Proof. split; [eexists; vm_compute; repeat split; reflexivity | vm_compute; repeat split; reflexivity]. Qed.
+Print Assumptions extra_balls_example.
+
+(* "... after the game has ended no game is active and a new one can start."  A second game on the same mode
+   object ([start_game] = the re-initialisation at the top of Game._run, which leaves the ball_drain handler
+   registration, the player-add chains and the playfield alone) started after ANY history of a first game that has
+   ended is, field by field, in the initial state of a first game (on a playfield that holds the balls left there),
+   so it behaves exactly like a first game for every configuration and every further history.  Hypothesis: no
+   player_adding queue is still held open by a handler when the game ends (such a queue would complete in the new
+   game; not generated by the harness). *)
+Theorem new_game_starts_clean : forall c ins,
+  pc (final c ins) = Done -> heldq (final c ins) = [] ->
+  start_game (final c ins) = set_pf (pf (final c ins)) init /\
+  forall c2 ins2, steps c2 (start_game (final c ins)) ins2 = steps c2 (set_pf (pf (final c ins)) init) ins2.
+Proof. exact new_game_starts_clean_l. Qed.
+Print Assumptions new_game_starts_clean.
+
+(* the correspondence run evaluates [games boot]; for one game that is [trace] *)
+Theorem first_game_is_trace : forall c ins, games boot [(c, ins)] = trace c ins.
+Proof. exact Restart.first_game_is_trace. Qed.
+Print Assumptions first_game_is_trace.
+
+Example new_game_example :
+  (* the first game ends slam-tilted with a ball left on the playfield and an unplayed extra ball; the second game
+     (3 balls) starts with player 1 ball 1 and waits for the playfield to empty *)
+  let ins1 := repeat (mkin [] [] []) 9 ++ [mkin [] [] [AwardExtra; SlamTilt]] ++ repeat (mkin [] [] []) 12 in
+  let s1 := final ex_cfg ins1 in
+  pc s1 = Done /\ heldq s1 = [] /\ slam s1 = true /\ pf s1 = 1 /\ slam (start_game s1) = false /\
+  length (games boot [(ex_cfg, ins1); (mkcfg 3 1 3 true false, repeat (mkin [] [] []) 8)]) = 30%nat.
+Proof. vm_compute. repeat split; reflexivity. Qed.
+Print Assumptions new_game_example.
